@@ -5,9 +5,12 @@
 //                                  3 unit cells (rows of height 1-2, many 1x1 cells, bins filled to the brim, some movable cells of
 //                                  zero area) with a callback that observes or RESIZES a cell / rescales the net weights mid-run
 //   flow run < cases
-// case: "FL <rows> <cells> <nets> stages effort seed netmodel [cbmode cbk cbcell cbw]"   stages bits: 1 global, 2 legalize, 4 detailed
+//   flow show EFFORT PSEED         prints the varied parameter set of a case
+// case: "FL <rows> <cells> <nets> stages effort seed netmodel [cbmode cbk cbcell cbw [pseed]]"   stages bits: 1 global, 2 legalize, 4 detailed
+//       pseed != 0: the parameters of the effort are perturbed by perturbParams(pseed) (kept only if ColoquinteParameters::check accepts them)
 //       cbmode 0 no callback, 1 observing callback, 2 at invocation cbk set the width of cell cbcell to cbw, 3 at invocation cbk double the net weights
-// result: "G:<RET|THROW msg> L:<..> D:<..>"  (stages not requested print '-')
+// result: "G:<RET|THROW msg> L:<..> D:<..> P:<def|var|rej>"  (stages not requested print '-'; P: default / varied / varied set rejected -> defaults)
+#include <cmath>
 #include "cgen.hpp"
 
 static const long long LIM = 1LL << 22;
@@ -100,6 +103,69 @@ static TCircuit genDegenerate(SplitMix &g) {
   return t;
 }
 
+// Parameter variation (all streams): from the seed carried in the case line, perturb the integer / enum knobs and the moderate float
+// knobs of every parameter structure; each knob keeps its effort default with probability ~1/2, so that the sets mix defaults and
+// non-defaults.  The set is kept only when ColoquinteParameters::check() ACCEPTS it (the caller falls back to the defaults otherwise).
+// Box (C06's "numerically moderate" one): CG tolerance 1e-1..1e-6, approximation / cutoff distances >= 0.1, penalty.targetBlending
+// untouched; window sizes <= 8 (square <= 4) and reorderingMaxNbCells <= 6 keep the cases small, not the library's limits (64 / 8).
+static void perturbParams(ColoquinteParameters &p, unsigned long long pseed) {
+  SplitMix g(pseed);
+  auto on = [&] { return g.coin(50); };
+  auto frac = [&](long long lo, long long hi, double den) { return (double)g.uni(lo, hi) / den; };
+  RoughLegalizationParameters &rl = p.global.roughLegalization;
+  if (on()) rl.costModel = (LegalizationModel)g.uni(0, 5);
+  if (on()) rl.nbSteps = (int)g.uni(0, 3);
+  if (on()) rl.binSize = g.coin(50) ? (double)g.uni(1, 25) : frac(10, 250, 10.0);
+  // sizes and overlaps drawn independently of each other: an overlap is only bounded by ITS OWN size (when that size is > 1), so
+  // "overlap >= another window's size" and "overlap > 1 with its own size 1" both occur
+  auto window = [&](int &size, int &ov, int maxSize) {
+    if (on()) size = (int)g.uni(1, maxSize);
+    if (on()) ov = size > 1 ? (int)g.uni(1, size - 1) : (int)g.uni(1, 4);
+    else if (size > 1 && ov >= size) ov = size - 1;          // default overlap 1 is always fine; keep accepted after a size change
+  };
+  window(rl.lineReoptSize, rl.lineReoptOverlap, 8);
+  window(rl.diagReoptSize, rl.diagReoptOverlap, 8);
+  window(rl.squareReoptSize, rl.squareReoptOverlap, 4);
+  if (on()) rl.unidimensionalTransport = g.coin(50);
+  if (on()) rl.quadraticPenalty = g.coin(30) ? (g.coin(50) ? 0.0 : 1.0) : frac(0, 1000, 1000.0);
+  if (on()) rl.sideMargin = g.coin(30) ? 0.0 : frac(0, 300, 100.0);
+  if (on()) rl.coarseningLimit = frac(5, 5000, 10.0);
+  if (on()) rl.targetBlending = frac(-10, 89, 100.0);
+  ContinuousModelParameters &cm = p.global.continuousModel;
+  if (on()) cm.approximationDistance = frac(1, 100, 10.0);
+  if (on()) cm.approximationDistanceUpdateFactor = frac(80, 120, 100.0);
+  if (on()) cm.maxNbConjugateGradientSteps = g.coin(30) ? (int)g.uni(1, 3) : (int)g.uni(1, 1000);
+  if (on()) cm.conjugateGradientErrorTolerance = std::pow(10.0, -(double)g.uni(1, 6));
+  PenaltyParameters &pe = p.global.penalty;
+  if (on()) pe.cutoffDistance = frac(1, 1000, 10.0);
+  if (on()) pe.cutoffDistanceUpdateFactor = frac(80, 120, 100.0);
+  if (on()) pe.areaExponent = frac(50, 100, 100.0);
+  if (on()) pe.initialValue = frac(1, 100, 1000.0);
+  if (on()) pe.updateFactor = frac(101, 199, 100.0);
+  GlobalPlacerParameters &gp = p.global;
+  if (on()) gp.maxNbSteps = (int)g.uni(1, 12);
+  if (on() || gp.nbInitialSteps >= gp.maxNbSteps) gp.nbInitialSteps = (int)g.uni(0, gp.maxNbSteps - 1);
+  if (on()) gp.nbStepsBeforeRoughLegalization = (int)g.uni(1, 3);
+  if (on()) gp.gapTolerance = g.coin(30) ? (g.coin(50) ? 0.0 : 1.0) : frac(0, 100, 100.0);
+  if (on()) gp.distanceTolerance = g.coin(30) ? 0.0 : frac(0, 500, 100.0);
+  if (on()) gp.penaltyUpdateDistance = frac(1, 500, 100.0);
+  if (on()) gp.penaltyUpdateBackoff = frac(100, 300, 100.0);
+  if (on()) gp.exportBlending = g.coin(30) ? (g.coin(50) ? 0.0 : 1.0) : frac(-50, 150, 100.0);
+  if (on()) gp.noise = g.coin(30) ? 0.0 : frac(0, 200, 100.0);
+  LegalizationParameters &lp = p.legalization;
+  if (on()) lp.orderingWidth = frac(-100, 200, 100.0);
+  if (on()) lp.orderingHeight = frac(-100, 200, 100.0);
+  if (on()) lp.orderingY = frac(-20, 20, 100.0);
+  DetailedPlacerParameters &dp = p.detailed;
+  if (on()) dp.nbPasses = (int)g.uni(0, 2);
+  if (on()) dp.localSearchNbNeighbours = (int)g.uni(0, 8);
+  if (on()) dp.localSearchNbRows = (int)g.uni(0, 4);
+  if (on()) dp.shiftNbRows = g.coin(40) ? 1 : (int)g.uni(1, 6);
+  if (on()) dp.shiftMaxNbCells = g.coin(30) ? (int)g.uni(0, 3) : (int)g.uni(0, 200);
+  if (on()) dp.reorderingNbRows = (int)g.uni(1, 3);
+  if (on()) dp.reorderingMaxNbCells = (int)g.uni(0, 6);
+}
+
 static std::string stage(const std::function<void()> &f) {
   try { f(); return "RET"; } catch (std::exception &e) { std::string m = e.what(); for (char &ch : m) if (ch == ' ' || ch == '\n') ch = '_'; return "THROW_" + m.substr(0, 60); }
 }
@@ -120,12 +186,22 @@ int main(int argc, char **argv) {
         int cell = (int)g.uni(0, n - 1);
         for (int tries = 0; tries < 8 && (t.cells[cell][6] || (g.coin(50) && t.cells[cell][2] != 0)); ++tries) cell = (int)g.uni(0, n - 1);   // prefer movable, often zero-width
         long long nw = g.coin(40) ? 0 : g.uni(1, 4);
-        printf("FL %s %s %d %d %d %d %d %d %d %lld\n", showRowsCells(t).c_str(), showNets(t).c_str(), stages, (int)g.uni(1, 3), (int)g.uni(0, 1000), (int)g.uni(0, 3),
-               cbmode, (int)g.uni(0, 6), cell, nw);
+        int e3 = (int)g.uni(1, 3), s3 = (int)g.uni(0, 1000), m3 = (int)g.uni(0, 3), k3 = (int)g.uni(0, 6);
+        long long ps3 = g.coin(55) ? g.uni(1, 2000000000) : 0;
+        printf("FL %s %s %d %d %d %d %d %d %d %lld %lld\n", showRowsCells(t).c_str(), showNets(t).c_str(), stages, e3, s3, m3, cbmode, k3, cell, nw, ps3);
         continue;
       }
-      printf("FL %s %s %d %d %d %d\n", showRowsCells(t).c_str(), showNets(t).c_str(), stages, (int)g.uni(1, 4), (int)g.uni(0, 1000), (int)g.uni(0, 3));
+      int e0 = (int)g.uni(1, 4), s0 = (int)g.uni(0, 1000), m0 = (int)g.uni(0, 3);
+      long long ps0 = g.coin(60) ? g.uni(1, 2000000000) : 0;      // parameter-variation seed; 0 = the library defaults of the effort
+      printf("FL %s %s %d %d %d %d 0 0 0 0 %lld\n", showRowsCells(t).c_str(), showNets(t).c_str(), stages, e0, s0, m0, ps0);
     }
+    return 0;
+  }
+  if (mode == "show") {   // flow show EFFORT PSEED: the parameter set a case line with that effort / pseed runs (before netmodel / seed / step caps)
+    ColoquinteParameters p(atoi(argv[2])); p.global.maxNbSteps = std::min(p.global.maxNbSteps, 12); p.detailed.nbPasses = std::min(p.detailed.nbPasses, 2);
+    perturbParams(p, strtoull(argv[3], nullptr, 10));
+    bool ok = true; try { p.check(); } catch (std::exception &e) { ok = false; printf("REJECTED (%s): the case runs the defaults\n", e.what()); }
+    if (ok) printf("%s\n%s\n%s\n%s\n", p.global.roughLegalization.toString().c_str(), p.toString().c_str(), p.global.continuousModel.toString().c_str(), p.global.penalty.toString().c_str());
     return 0;
   }
   vh_silence();   // no signal handlers: with sanitizers a report must end the process
@@ -136,7 +212,8 @@ int main(int argc, char **argv) {
     TCircuit t = readRowsCells(r); readNets(r, t);
     int stages = (int)r.nx(), effort = (int)r.nx(), seed = (int)r.nx(), nm = (int)r.nx();
     int cbmode = (int)r.nx(), cbk = (int)r.nx(), cbcell = (int)r.nx(); long long cbw = r.nx();
-    std::string G = "-", L = "-", D = "-";
+    long long pseed = r.nx();                                   // optional trailing int: 0 / absent = defaults (old case lines keep their meaning)
+    std::string G = "-", L = "-", D = "-", P = "def";
     try {
       Circuit c = buildCircuit(t);
       ColoquinteParameters p(effort); p.seed = seed;
@@ -144,6 +221,11 @@ int main(int argc, char **argv) {
       p.global.continuousModel.netModel = nms[nm & 3];
       p.global.maxNbSteps = std::min(p.global.maxNbSteps, 12);
       p.detailed.nbPasses = std::min(p.detailed.nbPasses, 2);
+      if (pseed != 0) {
+        ColoquinteParameters q = p; perturbParams(q, (unsigned long long)pseed); q.seed = seed; q.global.continuousModel.netModel = nms[nm & 3];
+        bool ok = true; try { q.check(); } catch (std::exception &) { ok = false; }
+        if (ok) { p = q; P = "var"; } else P = "rej";          // rejected sets are C19's business: run the defaults
+      }
       int inv = 0;
       std::optional<PlacementCallback> cb;
       if (cbmode != 0) cb = [&](PlacementStep) {
@@ -157,7 +239,7 @@ int main(int argc, char **argv) {
       if (stages & 2) { inv = 0; L = stage([&] { c.legalize(p, cb); }); }
       if (stages & 4) { inv = 0; D = stage([&] { c.placeDetailed(p, cb); }); }
     } catch (std::exception &e) { G = std::string("SETUP_THROW_") + e.what(); }
-    printf("G:%s L:%s D:%s\n", G.c_str(), L.c_str(), D.c_str()); fflush(stdout);
+    printf("G:%s L:%s D:%s P:%s\n", G.c_str(), L.c_str(), D.c_str(), P.c_str()); fflush(stdout);
   }
   return 0;
 }
